@@ -7,7 +7,7 @@ package cpu
 func (vm *verifMachine) enterHalted() {
 	c := vm.c
 	c.halted = true
-	c.currentSubinstructions = normal[0x76]
+	c.currentSubinstructions = []func(){c.halt} // as the dispatch table entry for 0x76
 	c.currentCycle = 1
 	c.currentInstruction = 0x76
 }
